@@ -4,3 +4,4 @@ pub mod client;
 pub mod rtu;
 pub mod sessions;
 pub mod robust;
+pub mod tls;
